@@ -671,10 +671,76 @@ def check(model, rep, tier):
             'contiguous: operator frames sit in between)', facts,
             line=ff.node.lineno,
             witness='zero-argument super() inside a functionalised for/if body')
-  for fn_name, want in (('locals_in_original_context', 'True'),
-                        ('globals_in_original_context', 'True'),
-                        ('eval_in_original_context', 'True'),
-                        ('super_in_original_context', 'False')):
+  # the local variables of the user's function are spread over its own frame and
+  # the frames of the functions generated for the enclosing blocks (a block's
+  # frame holds only what the block uses): eval / locals need all of them
+  def collects_every_frame(fi):
+    """fi walks the whole stack, keeps every frame carrying the scope and
+    returns their f_locals merged, outer frames first"""
+    ps = fi.params(skip_self=False)
+    if not ps:
+      return False
+    sp = ps[0]
+    for lp in [n for n in ast.walk(fi.node) if isinstance(n, ast.While)]:
+      b = pat.match('_F_ is not None', lp.test) or pat.match('_F_', lp.test)
+      if b is None or '_F_' not in b:
+        continue
+      if pat.match('_F_ = _F_.f_back', lp.body[-1], b) is None:
+        continue
+      if any(isinstance(x, (ast.Break, ast.Continue, ast.Return)) for x in ast.walk(lp)):
+        continue
+      keep = None
+      for st in lp.body:
+        if isinstance(st, ast.If) and not st.orelse and (
+            pat.match('_F_.f_locals.get(%s.name) is %s' % (sp, sp), st.test, b) is not None
+            or pat.match('_F_.f_locals.get(%s.name, None) is %s' % (sp, sp), st.test, b)
+            is not None):
+          for y in st.body:
+            m_ = pat.match('_L_.append(_F_)', y, b)
+            if m_:
+              keep = m_['_L_']
+      if keep is None:
+        continue
+      # merged: for fr in reversed(L): R.update(fr.f_locals) ; return R
+      for fr in [n for n in ast.walk(fi.node) if isinstance(n, ast.For)]:
+        if core.norm(fr.iter) != 'reversed(%s)' % keep or not isinstance(fr.target, ast.Name):
+          continue
+        if len(fr.body) != 1:
+          continue
+        m_ = pat.match('_R_.update(%s.f_locals)' % fr.target.id, fr.body[0])
+        if not m_:
+          continue
+        rets = [r for r in ast.walk(fi.node) if isinstance(r, ast.Return)]
+        if len(rets) == 1 and core.norm(rets[0].value) == m_['_R_']:
+          return True
+      # or a ChainMap over the frames, innermost first
+      for r in ast.walk(fi.node):
+        if isinstance(r, ast.Return) and r.value is not None and core.norm(r.value) in (
+            'collections.ChainMap(*[f.f_locals for f in %s])' % keep,
+            'collections.ChainMap(*(f.f_locals for f in %s))' % keep):
+          return True
+    return False
+
+  collectors = {nm for nm, fi_ in model.module(PYB).functions.items()
+                if collects_every_frame(fi_)}
+
+  def is_all_locals(e, fi_):
+    e = tpl.expand(fi_, e, e) if not isinstance(e, ast.Call) else e
+    return isinstance(e, ast.Call) and isinstance(e.func, ast.Name) and \
+        e.func.id in collectors and [core.norm(a) for a in e.args] == ['caller_fn_scope'] \
+        and not e.keywords
+  lf = model.func(PYB, 'locals_in_original_context')
+  lrets = [r for r in ast.walk(lf.node) if isinstance(r, ast.Return)]
+  rep.check(bool(lrets) and all(r.value is not None and is_all_locals(r.value, lf)
+                                for r in lrets),
+            'BI-FRAME', '%s:all-locals' % lf.site,
+            'locals() must return the variables of the user\'s function: those of '
+            'every frame that carries its scope (the function and the generated '
+            'block functions), not of a single frame', {'collectors': sorted(collectors)},
+            line=lf.node.lineno,
+            witness='def f(x, y, c): (if c: r = eval("x + y")) -- the block frame '
+            'holds only what the block mentions')
+  for fn_name, want in (('super_in_original_context', 'False'),):
     fi = model.func(PYB, fn_name)
     calls = [c for c in ast.walk(fi.node) if isinstance(c, ast.Call) and
              core.dotted(c.func) == '_find_originating_frame']
@@ -719,7 +785,7 @@ def check(model, rep, tier):
           isinstance(c.comparators[0], ast.Constant) for c in [t]):
         bad.append(core.norm(t)[:60])
   rets = [r for r in core.walk_no_nested(ef.node) if isinstance(r, ast.Return)]
-  uses_frame = all(k in core.norm(ef.node) for k in ('.f_globals', '.f_locals'))
+  uses_frame = '.f_globals' in core.norm(ef.node)
   # what is passed to eval for every shape of the argument tuple, evaluated
   # concretely: count 1..3, and each supplied namespace None or not.  Python:
   # omitted / None globals -> the caller's globals; omitted / None locals ->
@@ -742,9 +808,12 @@ def check(model, rep, tier):
       if k >= n_args:
         return ('bad', 'index %d of %d arguments' % (k, n_args))
       return ('none',) if nones.get(k) else ('arg', k)
-    if isinstance(e, ast.Attribute) and e.attr in ('f_globals', 'f_locals') and \
+    if isinstance(e, ast.Attribute) and e.attr == 'f_globals' and \
         core.norm(e.value).startswith('_find_originating_frame('):
       return ('frame', e.attr)
+    if isinstance(e, ast.Call) and isinstance(e.func, ast.Name) and e.func.id in collectors \
+        and [core.norm(a_) for a_ in e.args] == [ep[2]] and not e.keywords:
+      return ('frame', 'f_locals')      # the locals of every frame of the function
     return ('other', core.norm(e))
 
   def _truth(t, n_args, nones):
